@@ -206,6 +206,22 @@ impl RecGen {
             };
             out.push(Rec { id, desc, seq });
         }
+        // very rarely a bulk input: about 1 - 1.6 MB of sequence in a few dozen long
+        // records (thresholds expressed in total bytes, e.g. "flush every MiB")
+        if self.max_len >= 150 && self.max_records >= 16 && !many && rng.chance(1, 4000) {
+            let n = rng.usize(18, 24);
+            out.clear();
+            let alpha = ALPHAS[rng.weighted(&self.alpha_w)];
+            for i in 0..n {
+                let len = rng.usize(50_000, 70_000);
+                out.push(Rec {
+                    id: gen_id(rng, i),
+                    desc: gen_desc(rng),
+                    seq: gen_seq(rng, len, alpha),
+                });
+            }
+            return out;
+        }
         // now and then one record far longer than the rest, so that listings,
         // rows and lines cross the 4 KiB / 8 KiB buffer sizes used along the way
         if self.max_len >= 150 && !out.is_empty() && !many && rng.chance(1, 16) {
